@@ -6,6 +6,7 @@ import ast
 from ..core import (AnalysisError, body_nodes, call_name, dotted, is_self_attr, key_text, names_in,
                     params, parent, stmts_of, unparse)
 from ..linform import NotPoly, Poly, eval_poly
+from ..inline import inline_helpers
 from ..normal import inline_temps
 from ..pattern import pmatch
 from .c02 import check_flag_l
@@ -240,15 +241,20 @@ def check_fusion_rule(prog, rep):
         rep.violation('FUSION-rule', m, '_partial_qtotal', 'partial-qtotal',
                       '_partial_qtotal must return qconj * sum(effective charges) + add_qtotal',
                       g.lineno)
-    init = m.func('LegPipe.__init__')
-    rep.instance('FUSION-rule', {'function': 'LegPipe.__init__ (single block)'})
+    init0 = m.func('LegPipe.__init__')
+    init, inl = inline_helpers(init0, 'LegPipe.__init__', m, prog, known=('_init_from_legs', '_partial_qtotal'))
+    init = inline_temps(init)
+    rep.instance('FUSION-rule', {'function': 'LegPipe.__init__ (single block)',
+                                 'inlined_helpers': inl})
     calls = [c for c in body_nodes(init) if isinstance(c, ast.Call) and
              call_name(c) == '_partial_qtotal']
-    if not calls or unparse(calls[0].args[3]) != params(init)[2] or \
-            unparse(calls[0].args[1]) != 'legs':
+    qc = params(init0)[2]
+    if not calls or len(calls[0].args) < 4 or \
+            unparse(calls[0].args[3]) not in (qc, 'self.qconj') or \
+            unparse(calls[0].args[1]) not in ('legs', 'self.legs'):
         rep.violation('FUSION-rule', m, 'LegPipe.__init__', 'single-block-charges',
                       'the single-block fast path must compute the charge with the pipe\'s own '
-                      'qconj over all incoming legs', init.lineno)
+                      'qconj over all incoming legs', init0.lineno)
     # to_LegCharge keeps the LegCharge state of the pipe
     f2 = m.func('LegPipe.to_LegCharge')
     rep.instance('FUSION-rule', {'function': 'LegPipe.to_LegCharge'})
